@@ -263,6 +263,21 @@ pub fn specs(tier: &str) -> Vec<ExpSpec> {
             Op::Rename { base: r, src: "f".into(), dst_base: r, dst: "d/moved-long-name.txt".into() },
         ];
         v.push(ExpSpec::new(c, alpha, 1).with_prefix(pfx));
+        // a directory of two completely full clusters on a volume with ONE free cluster; a 200-character name needs two
+        // more clusters: the first is taken, the second is not there, the growth is undone by seeking back to the old
+        // end of the directory (a FAT walk: device calls on a clean-up path of a call that already fails for lack of space)
+        let mut c = vol::tiny_low(FatType::Fat12, 3, 16);
+        c.name = "t12-full-2cluster-dir-one-free".into();
+        let mut pfx = vec![Op::CreateDir { base: r, path: "d".into(), keep: None }, Op::CreateFile { base: r, path: "f".into(), keep: None }];
+        for i in 1..=15 {
+            pfx.push(Op::CreateFile { base: r, path: format!("d/long-n-{i:02}.txt"), keep: None });
+        }
+        let alpha = vec![
+            Op::CreateFile { base: r, path: format!("d/{}", "n".repeat(200)), keep: None },
+            Op::CreateDir { base: r, path: format!("d/{}", "k".repeat(200)), keep: None },
+            Op::Rename { base: r, src: "f".into(), dst_base: r, dst: format!("d/{}", "r".repeat(200)) },
+        ];
+        v.push(ExpSpec::new(c, alpha, 1).with_prefix(pfx));
         // full 16-slot root, free clusters left
         let mut c = vol::tiny_with(FatType::Fat12, 12, 16);
         c.name = "t12-full-root".into();
